@@ -105,6 +105,12 @@ def build_scenarios(prop, tier, rnd):
                           [{"op": "put", "k": 2, "c": "C"}, {"op": "put", "k": 2, "c": "A"}]):
                 for pl in ([{"c": "C"}], [{"c": "C"}, {"c": "E"}], [{"c": "E"}, {"c": "C"}]):
                     add([{"op": "put", "k": 1, "c": "A"}], [[{"op": cl, "c": "C"}], other], deep, plant=pl)
+            # three parties: the clean-up, a put of the orphaned content, and a second put of the SAME key with another (or the
+            # same) content that takes over the key's slot while the first commit is still in flight
+            for a, b in (([{"op": "put", "k": 2, "c": "C"}], [{"op": "put", "k": 2, "c": "B"}]), ([{"op": "put", "k": 2, "c": "C"}], [{"op": "put", "k": 2, "c": "C"}]),
+                         ([{"op": "put", "k": 1, "c": "C"}], [{"op": "put", "k": 1, "c": "A"}]))[: (2 if q else 3)]:
+                add([{"op": "put", "k": 1, "c": "A"}], [[{"op": cl, "c": "C"}], a, b], dict(deep, runs=120 if q else 2500), plant=[{"c": "C"}])
+                add([{"op": "put", "k": 1, "c": "A"}], [[{"op": cl, "c": "C"}], a, b], {"kind": "random", "runs": 40 if q else 600, "seed": seed()}, plant=[{"c": "C"}])
             # a staging leftover of an earlier crash next to the orphan: clean-up removes the REPORTED staging files only, never
             # the staging file of a transaction that is open or committing while it runs
             for other in ([{"op": "put", "k": 2, "c": "B"}], [{"op": "put", "k": 1, "c": "C"}], [{"op": "txbegin", "k": 2, "c": "G"}, {"op": "txfinish", "k": 2, "c": "G"}]):
@@ -169,6 +175,11 @@ def build_scenarios(prop, tier, rnd):
                  [[k(1, "B")], [k(1, "A")], [W[6]]], [[k(1, "A")], [{"op": "del", "k": 1}], [{"op": "del", "k": 2}]]]
         for i, th in enumerate(trios if not q else trios[:3]):
             add(INITS[1 + i % 2], th, dict(dfs, runs=120 if q else 2000))
+        # two commits of ONE key with different contents in flight, while the only other holder of the first content goes away
+        # (the later commit takes over the key's slot; the earlier commit's blob must stay protected until it is applied)
+        for j, third in enumerate([[{"op": "del", "k": 2}], [k(2, "B")], [W[6]]][: (2 if q else 3)]):
+            add(INITS[3], [[k(1, "A")], [k(1, "B")], third], dict(dfs, runs=150 if q else 2500))
+            add(INITS[3], [[k(1, "A")], [k(1, "B")], third], {"kind": "random", "runs": 40 if q else 600, "seed": seed() + j})
     # two operations per thread, three threads: seeded random schedules
     rs = {"kind": "random", "runs": 25 if q else 300, "seed": seed()}
     menu = W + (R if prop in ("C05", "C15") else [])
